@@ -2,6 +2,9 @@ SPECIFICATION TSpec
 CONSTANTS
   Blobs <- BlobsDef
   Plain <- BlobsDef
+  NBlobs = 345
+  Orders <- TOrders
+  AllEnts <- TAllEnts
   MaxCursor = 800
   MaxLimit = 400
   Limit = 100
@@ -14,6 +17,6 @@ CONSTANTS
   Forge = {}
   TamperOn = FALSE
   Deviations = {}
-INVARIANT TypeOK
+INVARIANT TTypeOK
 POSTCONDITION TraceAccepted
 CHECK_DEADLOCK FALSE
